@@ -52,6 +52,7 @@ val_of_kset = F("val_of_kset", KSet, Val)
 val_of_int = F("val_of_int", I, Val)
 val_of_bool = F("val_of_bool", B, Val)
 strform = F("strform", Val, Val)         # str(v)
+str_replace = F("str_replace", Val, Val, Val, Val)   # s.replace(a, b) on strings (total)
 contains = F("py_contains", Val, Val, B)  # value in container
 pyeq = F("py_eq", Val, Val, B)           # ==  (uninterpreted, reflexive)
 
@@ -253,6 +254,7 @@ def val_axioms():
         z3.ForAll([v], z3.Not(z3.And(isdict(v), islist(v))), patterns=[isdict(v), islist(v)]),
         z3.ForAll([v], z3.Not(z3.And(isstr(v), isev(v))), patterns=[isstr(v), isev(v)]),
         z3.ForAll([v], pyeq(v, v), patterns=[pyeq(v, v)]),
+        z3.ForAll([v], isstr(strform(v)), patterns=[strform(v)]),
     ]
     return ax
 
@@ -372,6 +374,9 @@ def resolve_axioms():
                                            z3.Or(z3.And(is_cls["KeyError"](x), z3.Not(has_cause(x)), z3.Not(has(o, exc_key(x))), z3.Not(blocked(o, exc_key(x)))),
                                                  z3.And(is_cls["TypeError"](x), z3.Not(has_cause(x))))),
                         patterns=[resolve_ok(v, o)]))
+    # the KeyError of a failing substitution names a key that cannot be looked up (also stated separately: KeyError and TypeError are distinct classes)
+    ax.append(z3.ForAll([v, o], z3.Implies(z3.And(z3.Not(resolve_ok(v, o)), is_cls["KeyError"](x)), z3.And(z3.Not(has(o, exc_key(x))), z3.Not(is_cls["TypeError"](x)))),
+                        patterns=[resolve_ok(v, o)]))
     ax.append(z3.ForAll([v, o], z3.Implies(z3.Not(resolve_ok(v, o)), z3.And(z3.Not(missing(x)), origin(x) == x)),
                         patterns=[resolve_ok(v, o)]))
     # read set present when it succeeds
@@ -437,6 +442,13 @@ def law_L4a(e, o):
 def law_L6(e, o):
     x = EVexc(e, o)
     return z3.Implies(z3.Not(EVok(e, o)), z3.And(is_cls["EvaluationError"](x), exc_src(x) == e))
+
+
+def law_L6k(e, o):
+    """a missing-option failure of evaluate / validate reports a key that is absent from the options (C12: 'a missing option being reported with its key')"""
+    return z3.And(z3.Implies(z3.And(z3.Not(EVok(e, o)), missing(EVexc(e, o))), z3.Not(has(o, mkey(EVexc(e, o))))),
+                  z3.Implies(z3.And(z3.Not(VLok(e, o)), missing(VLexc(e, o))), z3.Not(has(o, mkey(VLexc(e, o))))),
+                  z3.Implies(z3.And(z3.Not(KSok(e, o)), missing(KSexc(e, o))), z3.Not(has(o, mkey(KSexc(e, o))))))
 
 
 def law_L6v(e, o):
@@ -509,6 +521,10 @@ def child_laws(which=("L1", "L2", "L3", "L4a", "L5", "L5d", "L6", "L6v")):
         ax.append(z3.ForAll([e, o], law_L5d(e, o), patterns=[EXok(e, o)]))
     if "L6" in which:
         ax.append(z3.ForAll([e, o], law_L6(e, o), patterns=[EVok(e, o)]))
+    if "L6k" in which:
+        ax.append(z3.ForAll([e, o], law_L6k(e, o), patterns=[EVok(e, o)]))
+        ax.append(z3.ForAll([e, o], law_L6k(e, o), patterns=[VLok(e, o)]))
+        ax.append(z3.ForAll([e, o], law_L6k(e, o), patterns=[KSok(e, o)]))
     if "L6v" in which:
         ax.append(z3.ForAll([e, o], law_L6v(e, o), patterns=[VLok(e, o)]))
         ax.append(z3.ForAll([e, o], law_L6v(e, o), patterns=[KSok(e, o)]))
@@ -602,6 +618,74 @@ def resolve_structure_axioms():
     ]
 
 
+assume("OptTheory.resolve.escape", "a string whose braces are all backslash-escaped (s.replace('{','\\\\{').replace('}','\\\\}')) contains no template keys and "
+       "resolve returns the original string s for it, reading nothing (confectioner's TEMPLATE_KEY look-behind and remove_escapes; bounded-validated)")
+
+
+def literal(x):
+    """the escaped form labrea.template._literal builds from the string x"""
+    return str_replace(str_replace(x, val_of_key(LBRACE), val_of_key(ESC_LBRACE)), val_of_key(RBRACE), val_of_key(ESC_RBRACE))
+
+
+LBRACE, ESC_LBRACE, RBRACE, ESC_RBRACE = (z3.Const("key!" + t, Key) for t in ("{", "\\{", "}", "\\}"))
+
+
+def escape_axioms():
+    x, a, b = z3.Consts("x!e a!e b!e", Val)
+    o = z3.Const("o!e", Opt)
+    lx = literal(x)
+    return [
+        z3.ForAll([x, a, b], isstr(str_replace(x, a, b)), patterns=[str_replace(x, a, b)]),
+        z3.ForAll([x, o], z3.Implies(isstr(x), z3.And(resolve_ok(lx, o), resolve_val(lx, o) == x, RD(lx, o) == z3.EmptySet(Key))), patterns=[resolve_ok(lx, o)]),
+        z3.ForAll([x], z3.Implies(isstr(x), tkeys(lx) == z3.EmptySet(Key)), patterns=[tkeys(lx)]),
+    ]
+
+
+assume("P-str.param", "TEMPLATE_PARAM matches exactly the keys f':{name}:' of identifier names: isparam(pkey(n)), such keys are top-level, "
+       "and key[1:-1] inverts the f-string (pname(pkey(n)) = n, pkey(pname(k)) = k for parameter keys); keyword-argument names are identifiers")
+assume("OptTheory.resolve.params", "resolve(text, mix(o, P)) for a parameter dictionary P (only ':name:' keys, escaped string values) and caller options o without "
+       "':name:' keys or references to them (A-noparam): succeeds iff every referenced parameter is bound in P and every referenced option is present in o and "
+       "resolves under o alone; the result is a function of the parameter texts and the resolved referenced values (bounded-validated: harness/tp_validate.py)")
+pdict = F("pdict", Opt, B)           # a parameter dictionary built by Template.evaluate
+noparam = F("noparam", Opt, B)       # caller options without ':name:' keys / references (A-noparam)
+pbad = F("pbad", Val, Opt, Opt, Key)
+pdiff = F("pdiff", Val, Opt, Opt, Opt, Opt, Key)
+
+
+def template_axioms():
+    v = z3.Const("v!p", Val)
+    o, P, o2, P2 = z3.Consts("o!p P!p o2!p P2!p", Opt)
+    k, n = z3.Consts("k!p n!p", Key)
+    M, M2 = mix(o, P), mix(o2, P2)
+    pre = z3.And(isstr(v), pdict(P), noparam(o))
+    bad = pbad(v, o, P)
+    d = pdiff(v, o, P, o2, P2)
+    x = resolve_exc(v, M)
+    refok = lambda oo, kk: z3.And(has(oo, kk), resolve_ok(get(oo, kk), oo))
+    return [
+        z3.ForAll([n], z3.And(isparam(pkey(n)), top(pkey(n)), pname(pkey(n)) == n), patterns=[pkey(n)]),
+        z3.ForAll([k], z3.Implies(isparam(k), z3.And(pkey(pname(k)) == k, top(k))), patterns=[isparam(k)]),
+        # (a) success <=> every referenced parameter is bound and every referenced option resolves under the caller's options
+        z3.ForAll([v, o, P, k], z3.Implies(z3.And(pre, resolve_ok(v, M), z3.IsMember(k, tkeys(v))),
+                                           z3.If(isparam(k), has(P, k), refok(o, k))),
+                  patterns=[z3.MultiPattern(resolve_ok(v, M), z3.IsMember(k, tkeys(v)))]),
+        z3.ForAll([v, o, P], z3.Implies(z3.And(pre, z3.Not(resolve_ok(v, M))),
+                                        z3.And(z3.IsMember(bad, tkeys(v)), z3.If(isparam(bad), z3.Not(has(P, bad)), z3.Not(refok(o, bad))))),
+                  patterns=[resolve_ok(v, M)]),
+        # (c) which key a KeyError names
+        z3.ForAll([v, o, P], z3.Implies(z3.And(pre, z3.Not(resolve_ok(v, M)), is_cls["KeyError"](x)),
+                                        z3.Or(z3.And(z3.If(isparam(bad), z3.Not(has(P, bad)), z3.Not(has(o, bad))), exc_key(x) == bad),
+                                              z3.And(z3.Not(isparam(bad)), has(o, bad), z3.Not(resolve_ok(get(o, bad), o)), is_cls["KeyError"](resolve_exc(get(o, bad), o)),
+                                                     exc_key(x) == exc_key(resolve_exc(get(o, bad), o))))),
+                  patterns=[resolve_exc(v, M)]),
+        # (b) the value is a function of the parameter texts and of the resolved referenced values
+        z3.ForAll([v, o, P, o2, P2], z3.Implies(z3.And(pre, pdict(P2), noparam(o2), resolve_ok(v, M), resolve_ok(v, M2), resolve_val(v, M) != resolve_val(v, M2)),
+                                                z3.And(z3.IsMember(d, tkeys(v)),
+                                                       z3.If(isparam(d), get(P, d) != get(P2, d), resolve_val(get(o, d), o) != resolve_val(get(o2, d), o2)))),
+                  patterns=[z3.MultiPattern(resolve_val(v, M), resolve_val(v, M2))]),
+    ]
+
+
 def call_axioms():
     f, a = z3.Consts("f! a!", Val)
     x = call_exc(f, a)
@@ -612,4 +696,4 @@ assume("A-pure.notmissing", "an exception raised by a user callable is not (and 
 
 
 def base_axioms():
-    return exc_hierarchy_axioms() + val_axioms() + opt_axioms() + agree_axioms() + resolve_axioms() + call_axioms() + tk_contract_axioms()
+    return exc_hierarchy_axioms() + val_axioms() + opt_axioms() + agree_axioms() + resolve_axioms() + call_axioms() + tk_contract_axioms() + escape_axioms()
